@@ -84,7 +84,7 @@ def handle (req : Sexp) : Sexp :=
     | .list [.atom "rows", sy, y, .list (.atom "rows" :: rows)] => do
       let o := rowPass (← sy.asRat?) (← y.asRat?) (← rows.mapM getRRow)
       some (ok [.list (o.rows.map fun (y, h) => .list [ofRat y, ofRat h]),
-                .list (o.cells.map fun (id, y, bh) => .list [ofNat id, ofRat y, ofRat bh]),
+                .list (o.cells.map fun d => .list [ofNat d.id, ofRat d.y, ofRat d.bh]),
                 ofRat o.endY])
     | _ => none
   r.getD (Sexp.err "c13: unknown or malformed request")
